@@ -12,7 +12,7 @@ def harness_text(tags, lens=None, conc_addr=False):
     nslots = len([1 for x in slots if x[2] is not None])
     cap = G.max_need(tags, AL, SL, BL)
     L = []
-    L.append('#include <rtosc/rtosc.h>\n#include <rtosc/arg-val.h>\n#include <string.h>\n#include "nd.h"\n#include "../../../harness/common/msg_ref.h"')
+    L.append('#include <rtosc/rtosc.h>\n#include <rtosc/arg-val.h>\n#include <string.h>\n#include "nd.h"\n#include "msg_ref.h"')
     L.append("#define CAP %d\n#define AL %d" % (cap, AL))
     L.append("static char buf[CAP]; static unsigned char ref[CAP + 8]; static char buf2[CAP];")
     L.append("static rtosc_arg_t args[%d]; static char addr[AL + 1];" % max(nslots, 1))
